@@ -1,2 +1,215 @@
-(** C01 — placeholder while the proofs are being written. *)
-From Verif Require Import Repro.Check.
+(** C01 — the format-preserving parser is lossless: parse then dump reproduces the input.
+    Only statements; every proof is [exact <lemma>] or a short composition.
+
+    Model: Repro/Token.v (tokenizer), Repro/Parse.v (six grouping stages, dump);
+    spec:  Repro/LosslessSpec.v (the two input forms and the text to be reproduced);
+    proofs: Repro/TokenProofs.v, Repro/ParseProofs.v;
+    the functions named here are the ones Repro/Check.v runs in [agree]
+    ([py_tokenize], [py_parse] = [tokenize]/[parse] at the interpreter's tables) and
+    [expected_text] is what [holds] compares the implementation's output with.
+
+    The theorems of sections 1-4 hold for EVERY whitespace class [is_space] that
+    contains LF, SP and TAB, and for EVERY pair of field-name character classes;
+    section 5 instantiates them with the generated tables. *)
+From Verif Require Import Repro.Check Repro.TokenProofs Repro.ParseProofs.
+
+(** * 1. The token stream *)
+
+(** Form 1 (every line non-empty, LF only as last character, all but possibly the
+    last line LF-terminated): the tokenizer returns, and the token texts
+    concatenate to the input. *)
+Theorem C01_tokenize_total_lossless :
+  forall is_space name_first name_rest,
+    is_space LF = true -> is_space SP = true -> is_space TAB = true ->
+  forall ls, form1 ls = true ->
+    exists ts, tokenize is_space name_first name_rest ls = Ok ts
+               /\ text_of_tokens ts = concat ls.
+Proof. exact tokenize_form1. Qed.
+
+(** Form 2 (two or more lines, no LF anywhere): the token texts concatenate to the
+    lines each followed by a newline. *)
+Theorem C01_tokenize_lossless_autocorrect :
+  forall is_space name_first name_rest,
+    is_space LF = true -> is_space SP = true -> is_space TAB = true ->
+  forall ls, form2 ls = true ->
+    exists ts, tokenize is_space name_first name_rest ls = Ok ts
+               /\ text_of_tokens ts = concat (map add_lf ls).
+Proof. exact tokenize_form2. Qed.
+
+(** The [_verify_token_text] contract, for every successful tokenization of ANY
+    input and any character classes: no token is empty; a whitespace token that
+    contains LF ends with LF (merged blank lines: whole lines only); a comment or
+    error token contains LF at most as its last character; no other token
+    contains LF.  So no token other than a run of whole blank lines straddles a
+    line boundary. *)
+Theorem C01_token_single_line :
+  forall is_space name_first name_rest ls ts,
+    tokenize is_space name_first name_rest ls = Ok ts ->
+    forallb token_line_ok ts = true.
+Proof. exact tokenize_single_line. Qed.
+
+(** * 2. The six grouping stages only group: the token sequence is unchanged *)
+
+Theorem C01_stage_flatten_1 :       (* _combine_comment_tokens_into_elements *)
+  forall l, flatten_list (combine_comments l) = flatten_list l.
+Proof. exact combine_comments_flatten. Qed.
+
+Theorem C01_stage_flatten_2 :       (* _build_value_line *)
+  forall l, flatten_list (build_value_lines l) = flatten_list l.
+Proof. exact build_value_lines_flatten. Qed.
+
+Theorem C01_stage_flatten_3 :       (* _combine_vl_elements_into_value_elements *)
+  forall l, flatten_list (combine_value_lines l) = flatten_list l.
+Proof. exact combine_value_lines_flatten. Qed.
+
+(** Stage 4 has one lossy branch: on "field name not followed by separator and
+    value element" it builds an error element and silently drops a comment element
+    it had already consumed.  It is lossless exactly when that branch is not taken
+    with a pending comment; [fields_ok] (every top-level field-name token is followed
+    by a separator token and a value element) excludes the branch altogether ... *)
+Theorem C01_stage_flatten_4 :       (* _build_field_with_value *)
+  forall l, fields_ok l = true -> flatten_list (build_fields l) = flatten_list l.
+Proof. exact build_fields_flatten. Qed.
+
+(** ... and stages 1-3 establish [fields_ok] for every stream in which each
+    field-name token is followed by a separator token — which every successful
+    tokenization is ([C01_tokens_names_sep]). *)
+Theorem C01_stage_4_precondition :
+  forall l, names_sep l = true ->
+    fields_ok (combine_value_lines (build_value_lines (combine_comments l))) = true.
+Proof. exact stages123_fields_ok. Qed.
+
+Theorem C01_tokens_names_sep :
+  forall is_space name_first name_rest ls ts,
+    tokenize is_space name_first name_rest ls = Ok ts ->
+    names_sep (map node_of_token ts) = true.
+Proof.
+  intros is_space nf nr ls ts H. rewrite names_sep_tokens.
+  exact (proj2 (tokenize_inv is_space nf nr ls ts H)).
+Qed.
+
+Theorem C01_stage_flatten_5 :       (* _combine_kvp_elements_into_paragraphs (both paragraph classes) *)
+  forall l, flatten_list (combine_paragraphs l) = flatten_list l.
+Proof. exact combine_paragraphs_flatten. Qed.
+
+Theorem C01_stage_flatten_6 :       (* _combine_error_tokens_into_elements *)
+  forall l, flatten_list (combine_errors l) = flatten_list l.
+Proof. exact combine_errors_flatten. Qed.
+
+(** * 3. parse, then dump *)
+
+(** For ANY input on which the tokenizer returns, the accepting parser returns a
+    file element whose token sequence is exactly the token stream, so its dump is
+    the concatenation of the token texts. *)
+Theorem C01_parse_keeps_tokens :
+  forall is_space name_first name_rest ls ts,
+    tokenize is_space name_first name_rest ls = Ok ts ->
+    exists top, parse_accepting is_space name_first name_rest ls = Ok (Elem EFile top)
+                /\ flatten (Elem EFile top) = ts
+                /\ dump (Elem EFile top) = text_of_tokens ts.
+Proof. exact parse_of_tokens. Qed.
+
+(** parse_dump_lossless: both input forms, against the Spec. *)
+Theorem C01_parse_dump_lossless :
+  forall is_space name_first name_rest,
+    is_space LF = true -> is_space SP = true -> is_space TAB = true ->
+  forall ls e, expected_text ls = Some e ->
+    exists t, parse_accepting is_space name_first name_rest ls = Ok t /\ dump t = e.
+Proof. exact parse_dump_expected. Qed.
+
+Theorem C01_parse_dump_lossless_form1 :
+  forall is_space name_first name_rest,
+    is_space LF = true -> is_space SP = true -> is_space TAB = true ->
+  forall ls, form1 ls = true ->
+    exists t, parse_accepting is_space name_first name_rest ls = Ok t /\ dump t = concat ls.
+Proof. exact parse_dump_form1. Qed.
+
+Theorem C01_parse_dump_lossless_form2 :
+  forall is_space name_first name_rest,
+    is_space LF = true -> is_space SP = true -> is_space TAB = true ->
+  forall ls, form2 ls = true ->
+    exists t, parse_accepting is_space name_first name_rest ls = Ok t
+              /\ dump t = concat (map add_lf ls).
+Proof. exact parse_dump_form2. Qed.
+
+(** * 4. The accepting mode never raises on the two forms; elsewhere it raises only
+       what the tokenizer raises. *)
+Theorem C01_parse_accepting_total :
+  forall is_space name_first name_rest,
+    is_space LF = true -> is_space SP = true -> is_space TAB = true ->
+  forall ls, form1 ls || form2 ls = true ->
+    is_ok (parse_accepting is_space name_first name_rest ls) = true.
+Proof. exact parse_accepting_total. Qed.
+
+Theorem C01_parse_accepting_only_tokenizer_errors :
+  forall is_space name_first name_rest ls e,
+    parse_accepting is_space name_first name_rest ls = Err e ->
+    tokenize is_space name_first name_rest ls = Err e.
+Proof.
+  intros sp nf nr ls e H. destruct (tokenize sp nf nr ls) as [ts|e'] eqn:E.
+  - destruct (parse_of_tokens sp nf nr ls ts E) as [top [P _]]. congruence.
+  - pose proof (parse_accepting_err sp nf nr ls e' E) as P. congruence.
+Qed.
+
+(** * 5. The instance the implementation runs with (what [agree] evaluates) *)
+
+Theorem C01_py_tokenize_lossless :
+  forall ls e, expected_text ls = Some e ->
+    exists ts, py_tokenize ls = Ok ts /\ text_of_tokens ts = e.
+Proof.
+  exact (tokenize_expected py_isspace field_name_first field_name_rest
+           eq_refl eq_refl eq_refl).
+Qed.
+
+Theorem C01_py_parse_dump_lossless :
+  forall ls e, expected_text ls = Some e ->
+    exists t, py_parse true true ls = Ok t /\ dump t = e.
+Proof.
+  exact (parse_dump_expected py_isspace field_name_first field_name_rest
+           eq_refl eq_refl eq_refl).
+Qed.
+
+(** Non-vacuity.  A form-1 document with a comment before a field, a comment inside
+    a continuation, odd whitespace (TAB, CR, NBSP, FF), duplicate fields in
+    different case, a continuation line without a field, a syntactically invalid
+    line, two merged whitespace-only lines and an unterminated whitespace-only
+    last line (the D1 shape); and a form-2 document with whitespace-only lines to
+    merge.  Both meet the hypotheses, and the model returns what the theorems say. *)
+From Coq Require Import String.
+Local Open Scope string_scope.
+Example C01_nonvacuous :
+  let ls1 := List.map dec ["# c\00000a"; "A: b \00000a"; "# in value\00000a"; "\000009more\00000d\00000a"; "a:\0000a0x\00000c\00000a"; " \00000a"; "\000009\00000a"; " orphan\00000a"; "garbage\00000a"; "B:\00000a"; " "] in
+  let ls2 := List.map dec ["A: b"; " "; " "; "C: d"; ""] in
+  form1 ls1 = true /\ expected_text ls1 = Some (List.concat ls1)
+  /\ form2 ls2 = true /\ expected_text ls2 = Some (List.concat (List.map add_lf ls2))
+  /\ py_isspace LF = true /\ py_isspace SP = true /\ py_isspace TAB = true
+  /\ (exists ts, py_tokenize ls1 = Ok ts /\ List.length ts = 24%nat
+                 /\ forallb token_line_ok ts = true
+                 /\ names_sep (List.map node_of_token ts) = true
+                 /\ text_of_tokens ts = List.concat ls1)
+  /\ (exists t, py_parse true true ls1 = Ok t /\ dump t = List.concat ls1)
+  /\ (exists t, py_parse true true ls2 = Ok t /\ dump t = List.concat (List.map add_lf ls2))
+  /\ py_parse false false ls1 = Err ValueError.
+Proof.
+  vm_compute. repeat split; try (eexists; repeat split).
+Qed.
+
+Print Assumptions C01_tokenize_total_lossless.
+Print Assumptions C01_tokenize_lossless_autocorrect.
+Print Assumptions C01_token_single_line.
+Print Assumptions C01_stage_flatten_1.
+Print Assumptions C01_stage_flatten_2.
+Print Assumptions C01_stage_flatten_3.
+Print Assumptions C01_stage_flatten_4.
+Print Assumptions C01_stage_4_precondition.
+Print Assumptions C01_tokens_names_sep.
+Print Assumptions C01_stage_flatten_5.
+Print Assumptions C01_stage_flatten_6.
+Print Assumptions C01_parse_keeps_tokens.
+Print Assumptions C01_parse_dump_lossless.
+Print Assumptions C01_parse_dump_lossless_form1.
+Print Assumptions C01_parse_dump_lossless_form2.
+Print Assumptions C01_parse_accepting_total.
+Print Assumptions C01_parse_accepting_only_tokenizer_errors.
+Print Assumptions C01_py_tokenize_lossless.
+Print Assumptions C01_py_parse_dump_lossless.
